@@ -60,6 +60,15 @@ for _ln, _first in (("L5", False), ("L6", True)):
 import time as _time
 for _ln, _zone in (("L7", "+02:00"), ("L8", "+14:00"), ("L9", "Z"), ("L10", "-05:00")):
     LAYOUTS[_ln] = {fed.SP_EID: dict(LAYOUTS["L1"][fed.SP_EID]), fed.SP2_EID: dict(LAYOUTS["L1"][fed.SP2_EID], expired=_zone)}
+# the endpoint flagged isDefault sits under another binding than the first one listed / the first one the IdP prefers (hand-written metadata:
+# the package's own generator never writes isDefault)
+_SP2 = LAYOUTS["L1"][fed.SP2_EID]
+LAYOUTS["L11"] = {fed.SP_EID: dict(LAYOUTS["L1"][fed.SP_EID], acs=[(POST, "https://sp.example.org/acs/post", 1, None), (REDIR, "https://sp.example.org/acs/redirect", 2, None),
+                                                                      (ART, "https://sp.example.org/acs/artifact", 3, True)]), fed.SP2_EID: _SP2}
+LAYOUTS["L12"] = {fed.SP_EID: dict(LAYOUTS["L1"][fed.SP_EID], acs=[(POST, "https://sp.example.org/acs/post", 1, False), (REDIR, "https://sp.example.org/acs/redirect", 2, True)]),
+                  fed.SP2_EID: _SP2}
+LAYOUTS["L13"] = {fed.SP_EID: dict(LAYOUTS["L1"][fed.SP_EID], acs=[(ART, "https://sp.example.org/acs/artifact", 1, None), (REDIR, "https://sp.example.org/acs/redirect", 2, None),
+                                                                      (POST, "https://sp.example.org/acs/post", 3, True)]), fed.SP2_EID: _SP2}
 # ... and the same with the look-alikes in front of the real SP
 LAYOUTS["L4"] = dict([(k, v) for k, v in LAYOUTS["L3"].items() if k not in LAYOUTS["L1"]] + list(LAYOUTS["L1"].items()))
 
